@@ -21,6 +21,8 @@ type Scenario struct {
 	Readers   []ReaderSpec `json:"readers"`
 	NoModel   bool         `json:"no_model,omitempty"`   // property oracle only (very long runs)
 	SizeSweep bool         `json:"size_sweep,omitempty"` // write number i has i+1 payload bytes
+	SRTPWrap  bool         `json:"srtp_wrap,omitempty"`  // TLS: let sequence numbers wrap (see srtpMissedWrap)
+	SeqStart  int          `json:"seq_start,omitempty"`  // first sequence number of every format (0: seeded)
 }
 
 type ReaderSpec struct {
@@ -36,7 +38,7 @@ type ReaderSpec struct {
 // Step is one scheduled operation: before write number At.
 type Step struct {
 	At int    `json:"at"`
-	Op string `json:"op"` // play | pause | leave | gate | ungate
+	Op string `json:"op"` // setup | play | pause | leave | gate | ungate
 }
 
 // pktMeta is one packet the writer will write.
@@ -80,6 +82,18 @@ func genPackets(sc *Scenario) []pktMeta {
 				next[key{m, f}] = uint16(rng.IntN(65536))
 			default:
 				next[key{m, f}] = uint16(65535 - rng.IntN(40))
+			}
+			if sc.TLS && !sc.SRTPWrap && !sc.ArbSeq {
+				// SRTP: a reader that joins across a wrap loses the rollover counter (known finding); random
+				// TLS scenarios keep clear of the wrap
+				room := 65536 - sc.N - 1
+				if room < 1 {
+					room = 1
+				}
+				next[key{m, f}] = uint16(rng.IntN(room))
+			}
+			if sc.SeqStart != 0 {
+				next[key{m, f}] = uint16(sc.SeqStart)
 			}
 		}
 	}
